@@ -152,8 +152,28 @@ fn order_case(rng: &mut Rng, nvariants: usize) -> Case {
     // one case in eight (always with the analysis attached): a parent that has BOTH operands of a union as children, next to
     // parents of one side — the parent is queued for an analysis refresh and for re-canonicalisation at once, whichever operand dies
     let both = !wide && rng.chance(1, 7);
+    // one case in nine: a class with exactly ONE live slot that holds a node with a node-level redundant slot (`P(c(x,y)) = g1(x)`),
+    // and a symmetry of the child that exchanges the live and the redundant slot (`c(x,y) = c(y,x)`): in whichever order the two
+    // unions come, the last slot of the parent class has to go
+    let redsym = !wide && !both && rng.chance(1, 8);
     let (ops, stream) = if wide {
         (gen_wide(rng), "wide")
+    } else if redsym {
+        let cv = if rng.chance(1, 2) { 7 } else { 11 };
+        let (x, y) = (4u32, 8u32);
+        let c = |a: u32, b2: u32| leaf(cv, &[a, b2]);
+        let wrap = |t: ATerm, rng: &mut Rng| if rng.chance(1, 2) { un(13, t) } else { bin(14, t.clone(), t) };
+        let parent = wrap(c(x, y), rng);
+        let mut ops = vec![Op::Add(parent.clone()), Op::Add(leaf(10, &[x])), Op::Add(c(x, y)), Op::Add(c(y, x))];
+        if rng.chance(1, 2) {
+            ops.push(Op::Add(un(13, parent.clone())));
+        }
+        if rng.chance(1, 2) {
+            ops.push(Op::Add(leaf(10, &[y])));
+        }
+        ops.push(Op::Union(0, 1));
+        ops.push(Op::Union(2, 3));
+        (ops, "redthensym")
     } else if both {
         let sym = |s: &str| ATerm { v: 16, fields: vec![CField::Lit(s.into())], children: vec![] };
         let slotted = rng.chance(1, 2);
